@@ -74,6 +74,7 @@ def leaves(names=("a", "b"), full=True):
         for f in (IMPORT_FORMS if full else ["from m import n"]):
             out.append(("import", n, f))
     out.append(("chain",))
+    out.append(("chain-mixed",))
     out.append(("string",))
     if full:
         for f in ALL_FORMS:
@@ -104,7 +105,7 @@ def blocks(full=True):
 CLASS_LEVEL = (
     [("def", n, v) for n in ("a", "b") for v in CLASS_DEF_VARIANTS]
     + [("assign", n, v) for n in ("a", "b") for v in ASSIGN_VARIANTS]
-    + [("assign", "a", "classvar"), ("class", "a", "attr"), ("import", "a", "from m import n"), ("chain",), ("string",)]
+    + [("assign", "a", "classvar"), ("class", "a", "attr"), ("import", "a", "from m import n"), ("chain",), ("chain-mixed",), ("string",)]
     + [("block", k, tuple((a,) for a in arms)) for k in ("if", "tc", "tc-nested-if", "try-except")
        for arms in itertools.product(ARM_LEAVES_SMALL + [("def", "a", "property"), ("def", "b", "staticmethod")], repeat=ARMS[k])]
     + [("def", "__init__", "init"), ("def", "__init__", "init-cond"), ("def", "__init__", "init-ann")]
@@ -265,6 +266,11 @@ def render_stmt(r: R, s, ind, ctx, scope):
             labels = {"class-attribute", "instance-attribute"}
         ev.append({"op": "bind", "name": n, "kind": "attribute", "lineno": l1, "endlineno": l2, "cond": ctx["cond"], "guard": ctx["guard"], "labels": labels, "doc": adoc,
                    "annotation": "int" if v in ("annassign", "annonly", "classvar") else None, "value": None if v == "annonly" else "1"})
+    elif k == "chain-mixed":
+        # a chained assignment one of whose targets is not a plain name: the plain name is bound all the same
+        l1, l2 = r.emit("a = z[0] = 1", ind)
+        ev.append({"op": "bind", "name": "a", "kind": "attribute", "lineno": l1, "endlineno": l2, "cond": ctx["cond"], "guard": ctx["guard"],
+                   "labels": {"module-attribute"} if scope == "module" else {"class-attribute", "instance-attribute"}, "doc": None, "value": "1"})
     elif k == "chain":
         l1, l2 = r.emit("a = b = 1", ind)
         for n in ("a", "b"):
@@ -375,7 +381,7 @@ def render_seq(r: R, stmts, ind, ctx, scope):
             for b in prev_binds:
                 if not b.get("doc"):
                     b["doc"] = evs[0]["string"]
-        if st[0] in ("assign", "chain"):
+        if st[0] in ("assign", "chain", "chain-mixed"):
             prev_binds = [e for e in evs if e.get("op") == "bind" and e["kind"] == "attribute" and not e.get("is_def")]
         elif st[0] == "all" and "+=" not in st[1]:
             prev_binds = [e for e in evs if e.get("op") == "all"]  # `__all__ = [...]` is an attribute assignment as well
